@@ -20,6 +20,7 @@ Require Import Regen.Ledger.Amount Regen.Ledger.MapSum Regen.Ledger.Inv Regen.Le
 Require Import Regen.Ledger.InvMarketLib Regen.Ledger.InvMarketOrders Regen.Ledger.InvMarketPrune Regen.Ledger.InvMarketUpdate Regen.Ledger.InvMarket Regen.Ledger.InvMarketHalt.
 Require Import Regen.Ledger.InvAllLib Regen.Ledger.InvAllRun Regen.Ledger.InvAllOrders Regen.Ledger.InvAllProps.
 Require Import Regen.Ledger.InvAdmin Regen.Ledger.InvBase Regen.Ledger.InvBasket.
+Require Import Regen.Ledger.SpellingModel Regen.Ledger.Spelling.
 Import ListNotations RecordSetNotations.
 Local Open Scope Z_scope.
 
@@ -98,3 +99,9 @@ Print Assumptions C12_regression_state_violates_Inv_qty.
 Example C12_genesis_hypotheses_satisfiable : Inv_run empty_state /\ Inv_all empty_state.
 Proof. exact genesis_hyps_satisfiable. Qed.
 Print Assumptions C12_genesis_hypotheses_satisfiable.
+
+(* ---- address spellings (Ledger/Spelling.v): begin-block is total in every state reached with messages in any spelling ---- *)
+Theorem C12_begin_block_total_after_any_spelling : forall g s t,
+  Inv_run g -> reaches_sp g s -> exists s', begin_block t s = LOk s'.
+Proof. exact reaches_sp_begin_block_total. Qed.
+Print Assumptions C12_begin_block_total_after_any_spelling.
